@@ -684,7 +684,8 @@ class Ctx:
             with open(path, "w") as f:
                 json.dump({"property": self.pid, "judge": rec.get("judge"), "clauses": rec.get("clauses"),
                            "expected": rec.get("exp"), "event": rec["event"], "event_index": rec.get("exec_pos"),
-                           "execution": [json.loads(l) for l in rec["exec"][:rec.get("exec_pos", 0) + 1]][-400:],
+                           # the whole execution up to the rejected event when it is below 20 MB (replay needs its Reset), else its tail
+                           "execution": (lambda ls: [json.loads(l) for l in (ls if sum(len(x) for x in ls) < 20000000 else ls[-400:])])(rec["exec"][:rec.get("exec_pos", 0) + 1]),
                            "driver": rec.get("driver"), "script": rec.get("script")}, f, indent=1)
             print("VIOLATION property=%s replay=%s" % (self.pid, path), flush=True)
             log("  clauses=%s event=%s expected=%s" % (rec.get("clauses"), json.dumps(rec["event"])[:400], json.dumps(rec.get("exp"))[:400]))
